@@ -182,6 +182,11 @@ class ScoreKind(AbsInt):
         return TOP
 
 
+def get_binding(ctx, caller, call, callee):
+    from .c20 import get_alias
+    return get_alias(ctx).bind(caller, call, callee)
+
+
 def helper_roles(ctx, fn):
     """{'candidates': FuncInfo | None, 'empirical': FuncInfo | None}: the two module-level helpers of select_copula, found by
     what select_copula does with them (the one that receives the candidate list and returns a pair of curve lists; the one
@@ -300,6 +305,12 @@ def run(ctx, rep):
     dom = cfg.dominators()
     rep.check('D1.state', fn, fits[0] if fits else fr_assign[0], bool(fits), f'{fv} = Frank(); {fv}.fit(X)', 'the Frank candidate is not fitted on X',
               construct='frank fitted on X')
+    if fits:
+        from ..idioms import row_subsets_reaching
+        for st, tn, bn, how in row_subsets_reaching(fn.node, {xp}, before=fits[0]):
+            if tn == xp:
+                rep.bad('D1.state', fn, st, f'{tn} is re-bound to {how} of {bn} before the Frank candidate is fitted: tau, theta and the comparison come from a subset of the sample',
+                        construct='frank fitted on all rows of X')
     # early return
     early = None
     for n in walk_no_nested(fn.node):
@@ -468,11 +479,51 @@ def run(ctx, rep):
                 names_ = {x.id for x in e_.args[0].elts if isinstance(x, ast.Name)}
                 return names_ if len(names_) == 1 and len(e_.args[0].elts) == 2 else None
             return None
+        def grid_param(g):
+            """the parameter of the tail helper that plays the grid: the one under `(1 - p) ** 2` / `power(1 - p, 2)`; None when not derived"""
+            def base_param(e_, depth=0):
+                while isinstance(e_, ast.Call) and call_name(e_) in ('asarray', 'array', 'float', 'asfarray', 'ravel') and e_.args:
+                    e_ = e_.args[0]
+                if isinstance(e_, ast.Name):
+                    if e_.id in g.params:
+                        return e_.id
+                    d_ = _sd(g.node, e_.id)
+                    if isinstance(d_, ast.AST) and depth < 4:
+                        return base_param(d_, depth + 1)
+                return None
+            found = set()
+            for x in walk_no_nested(g.node):
+                sq = None
+                if isinstance(x, ast.BinOp) and isinstance(x.op, ast.Pow) and const_value(x.right) == 2:
+                    sq = x.left
+                elif isinstance(x, ast.Call) and call_name(x) in ('power',) and len(x.args) == 2 and const_value(x.args[1]) == 2:
+                    sq = x.args[0]
+                elif isinstance(x, ast.Call) and call_name(x) == 'square' and x.args:
+                    sq = x.args[0]
+                if isinstance(sq, ast.BinOp) and isinstance(sq.op, ast.Sub) and const_value(sq.left) in (1, 1.0):
+                    bp = base_param(sq.right)
+                    if bp:
+                        found.add(bp)
+            return found.pop() if len(found) == 1 else None
         for c_ in walk_no_nested(helper.node):
-            if isinstance(c_, ast.Call) and len(c_.args) == 2 and isinstance(c_.args[1], ast.Name) and c_.args[1].id in helper.params \
-                    and prog.resolve(helper.module, c_.func) in prog.functions:
-                g_ = grids_of(c_.args[0])
-                z_ = c_.args[1].id
+            g_fn = prog.functions.get(prog.resolve(helper.module, c_.func) or '') if isinstance(c_, ast.Call) else None
+            if g_fn is not None and g_fn.cls is None and len(g_fn.params) == 2 and len(c_.args) + len(c_.keywords) == 2:
+                gp = grid_param(g_fn)
+                if gp is None:
+                    continue
+                bound = get_binding(ctx, helper, c_, g_fn)
+                cp = [q_ for q_ in g_fn.params if q_ != gp][0]
+                if not bound.get(gp) or not bound.get(cp):
+                    continue
+                grid_arg, curve_arg = bound[gp][0], bound[cp][0]
+                if not (isinstance(grid_arg, ast.Name) and grid_arg.id in helper.params):
+                    if isinstance(curve_arg, ast.Name) and curve_arg.id in helper.params and grids_of(grid_arg) is not None:
+                        rep.bad('D3.index', helper, c_, f'`{short(c_, 70)}`: the CDF values are bound to `{gp}`, which `{g_fn.node.name}` uses as the grid, and the grid '
+                                f'`{curve_arg.id}` to `{cp}`, which it uses as C(z, z): the upper-tail function is evaluated with its arguments exchanged',
+                                construct='curve and grid agree')
+                    continue
+                g_ = grids_of(curve_arg)
+                z_ = grid_arg.id
                 if g_ is None:
                     continue
                 if g_ != {z_}:
